@@ -111,6 +111,10 @@ void __wrap_free(void *p)
             for (int s = 0; s < nsecret; s++) {
                 if (contains((const uint8_t *)p, blk[i].n, secret[s], secret_len[s])) {
                     dirty_frees++;
+                    if (getenv("CDRV_DEBUG")) {
+                        fprintf(stderr, "dirty free: block of %zu octets still holds registered secret #%d (%zu octets)\n",
+                                (size_t)blk[i].n, s, (size_t)secret_len[s]);
+                    }
                     break;
                 }
             }
